@@ -32,6 +32,56 @@ def match_known(known, prop, sig):
     return None
 
 
+def shrink_case(suite, case, exe, sig, rounds=6):
+    """delta-debugging on the last hex field of a stateless operation line, keeping the oracle signature; returns the shrunk line or None"""
+    import copy
+    f = case.line.split(" ")
+    if len(f) < 2 or not re.fullmatch(r"[0-9a-f]{8,}", f[-1]):
+        return None
+    data = bytes.fromhex(f[-1])
+    meta_key = next((k for k in ("text", "data") if isinstance(case.meta.get(k), (bytes, bytearray))), None)
+    if meta_key is None or case.meta[meta_key] != data:
+        return None
+
+    def variants(b):
+        n = len(b)
+        step = max(1, n // 2)
+        while step >= 1:
+            for i in range(0, n, step):
+                yield b[:i] + b[i + step:]
+            step //= 2
+
+    best = data
+    for _ in range(rounds):
+        cands = [v for v in dict.fromkeys(variants(best)) if v != best][:400]
+        if not cands:
+            break
+        cs = []
+        for v in cands:
+            c2 = copy.copy(case)
+            c2.meta = dict(case.meta)
+            c2.meta[meta_key] = v
+            # expectations attached by the generator do not survive shrinking: only suites whose oracle needs nothing else are shrunk
+            if "exp" in c2.meta or "value" in c2.meta:
+                return None
+            c2.line = " ".join(f[:-1] + [v.hex() or "-"])
+            cs.append(c2)
+        try:
+            ho, _ = ajlib.run_both(exe, [c.line for c in cs], driver=False)
+        except Exception:
+            return None
+        better = None
+        for c2, h in zip(cs, ho):
+            o = suite.oracle(c2, h)
+            if o and o[0] == sig and len(c2.meta[meta_key]) < len(best):
+                better = c2
+                break
+        if better is None:
+            break
+        best = better.meta[meta_key]
+    return " ".join(f[:-1] + [best.hex() or "-"]) if best != data else None
+
+
 def main():
     ap = argparse.ArgumentParser()
     ap.add_argument("prop")
@@ -187,7 +237,14 @@ def main():
                 if k:
                     known_hits[k["id"]] = k
                 elif not any(v[0] == sig for v in violations):
-                    violations.append((sig, desc, {"suite": s.name, "cfg": s.cfg, "line": c.line, "implementation": h, "model": m, "what": desc}))
+                    rep_lines = c.line
+                    if gs is not None:
+                        st = max(g for g in gs if g <= i)
+                        rep_lines = lines[st:i + 1]          # stateful suite: the whole history up to the failing operation
+                    else:
+                        rep_lines = shrink_case(s, c, exe, sig) or c.line
+                    violations.append((sig, desc, {"suite": s.name, "cfg": s.cfg, "line": rep_lines, "original_line": c.line if rep_lines != c.line else None,
+                                                   "implementation": h, "model": m, "what": desc}))
             ft = s.feature(c, h)
             if ft is not None:
                 features.add((s.name, ft))
